@@ -585,31 +585,43 @@ def parse_tetrahedron(tree, vec_defaults):
 
 def gen_orientation(tree):
     """check_format_input_orientation: pinned statement by statement; scipy's as_quat / np.reshape are modelled
-    (a single rotation has one quaternion, a stack of n has n)"""
+    (a single rotation has one quaternion, a stack of n has n).  Two forms of the else-branch are known: with and
+    without the guard `if inpQ.size == 0: raise MagpylibBadUserInput` (exported as orientation_rejects_empty)."""
     fn = get_fn(tree, "check_format_input_orientation")
     if argnames(fn) != ["inp", "init_format"] or defaults(fn) != {"init_format": False}:
         raise Untranslatable("check_format_input_orientation signature")
     body = strip_doc(fn.body)
-    want = ["if not isinstance(inp, (Rotation, type(None))):",
-            "if inp is None:\n    inpQ = np.array((0, 0, 0, 1))\n    inp = Rotation.from_quat(inpQ)\nelse:\n"
-            "    inpQ = inp.as_quat()",
-            "if init_format:\n    return np.reshape(inpQ, (-1, 4))",
-            "return (inp, inpQ)"]
     if len(body) != 4:
         raise Untranslatable("check_format_input_orientation: expected 4 statements")
     g = body[0]
-    if not (ast.unparse(g).startswith(want[0]) and isinstance(g, ast.If) and not g.orelse and len(g.body) == 1
-            and is_raise_bad(g.body[0])):
+    if not (ast.unparse(g).startswith("if not isinstance(inp, (Rotation, type(None))):") and isinstance(g, ast.If)
+            and not g.orelse and len(g.body) == 1 and is_raise_bad(g.body[0])):
         fail(g, "orientation type test")
-    for st, w in zip(body[1:], want[1:]):
+    n = body[1]
+    if not (isinstance(n, ast.If) and ast.unparse(n.test) == "inp is None"
+            and [ast.unparse(x) for x in n.body] == ["inpQ = np.array((0, 0, 0, 1))", "inp = Rotation.from_quat(inpQ)"]
+            and n.orelse and ast.unparse(n.orelse[0]) == "inpQ = inp.as_quat()" and len(n.orelse) in (1, 2)):
+        fail(n, "orientation None / as_quat step")
+    guard = False
+    if len(n.orelse) == 2:
+        q = n.orelse[1]
+        if not (isinstance(q, ast.If) and ast.unparse(q.test) == "inpQ.size == 0" and not q.orelse
+                and len(q.body) == 1 and is_raise_bad(q.body[0])):
+            fail(q, "orientation empty-rotation guard")
+        guard = True
+    for st, w in zip(body[2:], ["if init_format:\n    return np.reshape(inpQ, (-1, 4))", "return (inp, inpQ)"]):
         if ast.unparse(st) != w:
             fail(st, "check_format_input_orientation statement")
-    return ("(* check_format_input_orientation(inp, init_format=True): the number of quaternions that are stored *)\n"
+    return ("(* `if inpQ.size == 0: raise MagpylibBadUserInput` after inp.as_quat(): an empty Rotation is rejected *)\n"
+            f"Definition orientation_rejects_empty : bool := {coq_bool(guard)}.\n\n"
+            "(* check_format_input_orientation(inp, init_format=True): the number of quaternions that are stored *)\n"
             "Definition check_format_input_orientation (inp : oinput) : oout :=\n"
             "  match inp with\n"
             "  | ONotRotation => ORejected       (* not isinstance(inp, (Rotation, type(None))) *)\n"
             "  | ONone => OStored 1              (* inpQ = np.array((0, 0, 0, 1)) ; reshape (-1, 4) *)\n"
-            "  | ORot single n => OStored (if single then 1 else n)   (* inp.as_quat() ; reshape (-1, 4) *)\n"
+            "  | ORot single n =>                (* inp.as_quat() ; [inpQ.size == 0 -> raise] ; reshape (-1, 4) *)\n"
+            "      if single then OStored 1\n"
+            "      else if orientation_rejects_empty && (n =? 0) then ORejected else OStored n\n"
             "  end.\n")
 
 
